@@ -7,7 +7,7 @@
     [rows t] / [hdr t] are the observation of a model table (what
     [Table.to_list()] / [Table.header] return). *)
 From Coq Require Import Permutation Sorting.Sorted.
-From CG3 Require Import Lib.PyZ Lib.Chars Lib.StableSort Model.Csv Model.Table.
+From CG3 Require Import Lib.PyZ Lib.Chars Lib.StableSort Model.Csv Model.Table Model.TableLoad.
 Import ListNotations.
 
 (* ------------------------------------------------------------------ observation, well-formedness *)
@@ -110,8 +110,36 @@ Fixpoint count_str (c : str) (l : list str) : nat :=
 Definition rev_flags (columns rev : list str) : list bool :=
   map (fun c => Nat.odd (count_str c rev)) columns.
 
+(* a float cell is the decimal m * 10^e its repr shows: no trailing zero in m (0.0 is CF 0 0) *)
+Definition dec_normal (c : cell) : Prop :=
+  match c with
+  | CF m e => (m = 0 -> e = 0) /\ (m <> 0 -> m mod 10 <> 0)
+  | _ => True
+  end.
+
+Definition dec_normal_col (col : list cell) : Prop := Forall dec_normal col.
+
 (* ------------------------------------------------------------------ delimited text *)
 
 (* cells whose text survives: no carriage return *)
 Definition cell_text_okb (c : cell) : bool :=
   match c with CS s => field_okb s | _ => true end.
+
+(* ------------------------------------------------------------------ typed round trip: which tables *)
+
+(* a float cell whose decimal has at most 15 significant digits and a moderate
+   exponent (the range in which binary64 reproduces the decimal, DBL_DIG) *)
+Definition dec_okb (m e : Z) : bool :=
+  ((m =? 0) && (e =? 0) || negb (m =? 0) && negb (m mod 10 =? 0)) && (Z.abs m <? 10 ^ 15) && (-290 <=? e) && (e <=? 290).
+
+(* columns whose cells come back with the same type and value: 64-bit ints,
+   such floats, bools, and strings that no reader takes for a number or a
+   Python literal ([plain_textb], Model/TableLoad.v: empty, or words of
+   letters / digits / '_' / inner spaces starting with a letter, other than
+   True / False / None / nan / inf / infinity / j ...) *)
+Definition int64_cellb (c : cell) : bool := match c with CI z => (- 2 ^ 63 <=? z) && (z <? 2 ^ 63) | _ => false end.
+Definition float_cellb (c : cell) : bool := match c with CF m e => dec_okb m e | _ => false end.
+Definition bool_cellb (c : cell) : bool := match c with CB _ => true | _ => false end.
+Definition plain_cellb (c : cell) : bool := match c with CS s => plain_textb s | _ => false end.
+Definition typed_col_okb (col : list cell) : bool :=
+  forallb int64_cellb col || forallb float_cellb col || forallb bool_cellb col || forallb plain_cellb col.
